@@ -19,7 +19,7 @@ class C01(ProgCheck):
     prop = "C01"
     flag = "c01"
     level = "exploration"
-    flavours = ["ser", "par", "par-asan"]
+    flavours = ["ser", "par", "par-asan", "ser-asan"]
     assumptions = [
         "the invariant is an independent re-implementation of the statement over GetMeshGL64() + merge vectors",
         "programs are sampled (seeded), not enumerated; lowered thresholds (hook H2) are used to drive the parallel topology "
